@@ -282,6 +282,35 @@ def run_case(tree, seq):
     return problems
 
 
+def run_reused_set(tree):
+    """The producer keeps ONE set object for its tags, changes it between two events and passes it
+    again: every sink gets each event with the tags the set held at that moment."""
+    problems = []
+    built = Built()
+    top = build(tree, [], built)
+    own = {"t", "x"}
+    snaps = []
+    try:
+        top.startTestRun()
+        drain(built)
+        for status, change in (("inprogress", None), ("success", "u"), ("fail", "t")):
+            if change is not None:
+                own.symmetric_difference_update({change})
+            top.status(test_id="t", test_status=status, test_tags=own, timestamp=T1)
+            drain(built)
+            snaps.append(ev(test_status=status, test_tags=frozenset(own)))
+        top.stopTestRun()
+        drain(built)
+    except Exception as e:
+        return [("call-raised", "%s: %s" % (type(e).__name__, str(e)[:150]))]
+    for path, sink in built.sinks:
+        got = [g[1]["test_tags"] for g in sink.log if g[0] == "status"]
+        want = [transform(path, d)["test_tags"] for d in snaps]
+        if got != want:
+            problems.append(("forwarding", "one tag set re-used by the producer for three events (changed in between): the sink behind %r received tags %r, expected %r" % (path, [None if g is None else sorted(g) for g in got], [None if w is None else sorted(w) for w in want])))
+    return problems
+
+
 def _brief(log):
     out = []
     for e in log:
@@ -396,6 +425,9 @@ def run_shard(shard, tier, seed):
     seqs = sequences(tier)
     for tree in ts[shard::NSHARDS]:
         res.states += 1
+        res.evaluations += 1
+        for clause, msg in run_reused_set(tree):
+            res.violation("C11/%s" % clause, "%s [tree %r]" % (msg, tree), {"tree": tree, "reused_set": True})
         for seq in seqs:
             problems = run_case(tree, [_spec(i) for i in seq])
             res.evaluations += 1
@@ -433,5 +465,8 @@ def _tuplify(t):
 
 def replay(data):
     tree = _tuplify(data["tree"])
+    if data.get("reused_set"):
+        problems = run_reused_set(tree)
+        return (not problems), "tree=%r problems=%r" % (tree, problems)
     problems = run_case(tree, [_spec(i) for i in data["events"]])
     return (not problems), "tree=%r events=%r problems=%r" % (tree, data["events"], problems)
